@@ -25,22 +25,43 @@ package logger
 //@ ghost var errPanic any
 //@ ghost var statusAtRecover int
 
-// a log handler: arbitrary code (it writes to a user-supplied io.Writer) assumed not to touch request-time state
+// A log handler. For arbitrary implementations (Relay's view): code assumed not to touch request-time state. For the
+// three handlers of this package (guard handlerOK): exactly one Write per record, under the family's mutex.
 //@ iface Handler.Handle(h, ctx, r)
-//@   modifies region(originMem)
+//@   modifies region(originMem), ghostfields(held), ghostfields(owned), ghostfields(jsonLine), wN, wErr, wCalls
 //@   attr blocking yes
+//@   guard handlerOK(h) && validLevel(r.Level) && yearOK(r.Time)
+//@   ensures oneWrite: wCalls == old(wCalls) + 1
+//@   ensures again: handlerOK(h)
 
 //@ iface Handler.Enabled(h, l)
 //@   purefn
 //@   attr blocking no
 //@   modifies nothing
 
+//@ iface Handler.IsAddSource(h)
+//@   purefn
+//@   attr blocking no
+//@   modifies nothing
+
+//@ iface Handler.WithAttrs(h, attrs)
+//@   modifies ghostfields(owned), ghostfields(jsonLine)
+//@   attr blocking no
+//@   guard handlerOK(h)
+//@   ensures family: handlerOK(result) && muOf(result) == muOf(h) && outOf(result) == outOf(h)
+
+//@ iface Handler.WithGroup(h, name)
+//@   modifies nothing
+//@   attr blocking no
+//@   guard handlerOK(h)
+//@   ensures family: handlerOK(result) && muOf(result) == muOf(h) && outOf(result) == outOf(h)
+
 //@ pure attrIs(r slog.Record, i int, k string, v slog.Value) bool = recAttr(r, i).Key == k && recAttr(r, i).Value == v
 //@ pure reqOK(store *httpd.Store) bool = store != nil && store.R != nil && store.W != nil && store.I != nil && store.W.Origin != nil
 
 //@ func (*Logger).Relay
 //@   requires l != nil && l.h != nil && reqOK(store) && store.I.HandlerFunc != nil && !panicking && !panicSeen
-//@   modifies region(userMem), fields(httpd.ResponseWriter.Status), ghostfields(wireCode), begs, ends, errs, statusAtRecover, begIP, begMethod, begPath, begTid, endIP, endMethod, endPath, endTid, endCode, errTid, errPanic, errorsSent, lastErrorCode, panicking, pval, panicSeen
+//@   modifies region(userMem), fields(httpd.ResponseWriter.Status), ghostfields(wireCode), begs, ends, errs, statusAtRecover, begIP, begMethod, begPath, begTid, endIP, endMethod, endPath, endTid, endCode, errTid, errPanic, errorsSent, lastErrorCode, panicking, pval, panicSeen, ghostfields(held), ghostfields(owned), ghostfields(jsonLine), wN, wErr, wCalls
 //@   ensures records.beg: begs == old(begs) + ite(l.h.Enabled(4), 1, 0)
 //@   ensures records.end: ends == old(ends) + ite(l.h.Enabled(4), 1, 0)
 //@   ensures records.sameFields: l.h.Enabled(4) ==> endIP == begIP && endMethod == begMethod && endPath == begPath && endTid == begTid
@@ -60,7 +81,7 @@ package logger
 // deferred first (runs last): the REQ_END record
 //@ func (*Logger).Relay$1
 //@   requires l != nil && l.h != nil && reqOK(store)
-//@   modifies region(userMem), store.W.Status, ends, endIP, endMethod, endPath, endTid, endCode
+//@   modifies region(userMem), store.W.Status, ends, endIP, endMethod, endPath, endTid, endCode, ghostfields(held), ghostfields(owned), ghostfields(jsonLine), wN, wErr, wCalls
 //@   ensures count: ends == old(ends) + ite(l.h.Enabled(4), 1, 0)
 //@   ensures fields: l.h.Enabled(4) ==> endIP == remoteIP && endMethod == store.R.Method && endPath == store.R.RequestURI && endTid == bytesText(store.id) && endCode == store.W.Status && endCode != 0
 //@   ensures status: store.W.Status == old(store.W.Status) || (old(store.W.Status) == 0 && l.h.Enabled(4) && store.W.Status == 200)
@@ -75,7 +96,7 @@ package logger
 // deferred second (runs first): recover, Error record, 500 iff nothing was sent
 //@ func (*Logger).Relay$2
 //@   requires l != nil && l.h != nil && reqOK(store)
-//@   modifies region(userMem), fields(httpd.ResponseWriter.Status), ghostfields(wireCode), errs, errTid, errPanic, errorsSent, lastErrorCode, panicking, statusAtRecover
+//@   modifies region(userMem), fields(httpd.ResponseWriter.Status), ghostfields(wireCode), errs, errTid, errPanic, errorsSent, lastErrorCode, panicking, statusAtRecover, ghostfields(held), ghostfields(owned), ghostfields(jsonLine), wN, wErr, wCalls
 //@   attr recovers yes
 //@   ensures recovered: !panicking
 //@   ensures quiet: !old(panicking) || old(pval) == any(http.ErrAbortHandler) ==> errs == old(errs) && errorsSent == old(errorsSent) && store.W.Status == old(store.W.Status)
@@ -175,6 +196,7 @@ package logger
 //@   modifies *buf, spare(*buf)
 //@   ensures grow: len(*buf) >= len(old(*buf)) && sameOrFresh(old(*buf), *buf)
 //@   ensures str: !colorful && inStr(old(jstK(*buf))) ==> jstK(*buf) == old(jstK(*buf)) && jstD(*buf) == old(jstD(*buf))
+//@   ensures tok: !colorful && old(tstK(*buf)) == 5 ==> tstK(*buf) == 6
 
 // one attribute = one member (or, for an inline group, its members; nothing for an empty inline group)
 //@ pure memberPre(k int, addSep bool) bool = (addSep && afterVal(k)) || (!addSep && (k == 2 || k == 3))
@@ -194,10 +216,10 @@ package logger
 //@     invariant !colorful && memberPre(old(jstK(*buf)), old(addSep)) && old(jstD(*buf)) >= 1 ==> memberPre(jstK(*buf), addSep) && jstK(*buf) != 3 && jstD(*buf) == old(jstD(*buf)) + 1
 
 // ================= buffers (C02/C03): pooled line buffers =================
-//@ poolinv bufferPool buf *[]byte :: len(*buf) == 0
+//@ poolinv bufferPool buf *[]byte :: len(*buf) == 0 && cap(*buf) <= 16384
 //@ func newBuffer
 //@   modifies ghostfields(owned)
-//@   ensures result != nil && len(*result) == 0 && owned(result) && owned(*result) && !isStructField(result) && pooled(result) && (arr(*result) == nil || pooled(*result))
+//@   ensures result != nil && len(*result) == 0 && ownedIn(result, bufferPool) && ownedIn(*result, bufferPool) && !isStructField(result) && pooled(result) && (arr(*result) == nil || pooled(*result))
 
 //@ func freeBuffer
 //@   requires buf != nil && owned(buf)
@@ -206,8 +228,9 @@ package logger
 // ================= JsonHandler (C01 structure, C02, C03) =================
 // handler invariant: the pre-rendered fragment, read where Handle splices it, leaves the automaton expecting a member
 // (after a value if a separator is due, right after '{' otherwise) at depth 1 + nOpenGroups
-//@ pure jsonHI(h *JsonHandler) bool = h != nil && h.Options != nil && h.outMu != nil && h.out != nil && h.nOpenGroups >= 0 && h.nOpenGroups <= len(h.preformatted)
-//@   | && (arr(h.preformatted) == nil || !pooled(h.preformatted)) && (h.addSep ==> afterVal(jfragK(h.preformatted))) && (!h.addSep ==> jfragK(h.preformatted) == 2) && jfragD(h.preformatted) == 1 + h.nOpenGroups
+//@ pure jsonHS(h *JsonHandler) bool = h != nil && h.Options != nil && h.outMu != nil && h.out != nil && h.nOpenGroups >= 0 && h.nOpenGroups <= len(h.preformatted) && (arr(h.preformatted) == nil || !pooled(h.preformatted))
+//@ pure jsonHA(h *JsonHandler) bool = (h.addSep ==> afterVal(jfragK(h.preformatted))) && (!h.addSep ==> jfragK(h.preformatted) == 2) && jfragD(h.preformatted) == 1 + h.nOpenGroups
+//@ pure jsonHI(h *JsonHandler) bool = jsonHS(h) && (!h.Options.colorful ==> jsonHA(h))
 
 //@ func NewJsonHandler
 //@   requires w != nil && opts != nil
@@ -222,22 +245,25 @@ package logger
 //@   ensures jsonHI(result)
 
 //@ func (*JsonHandler).WithAttrs
+//@   attr refines Handler.WithAttrs
 //@   requires jsonHI(h)
 //@   modifies ghostfields(jsonLine)
 //@   ensures same: len(attrs) == 0 ==> result == any(h)
-//@   ensures derived: len(attrs) > 0 && !h.Options.colorful ==> typeIs(result, *JsonHandler) && jsonHI(payload(result, *JsonHandler)) && fresh(payload(result, *JsonHandler)) && payload(result, *JsonHandler).outMu == h.outMu && payload(result, *JsonHandler).out == h.out && payload(result, *JsonHandler).Options == h.Options
+//@   ensures derived: len(attrs) > 0 ==> typeIs(result, *JsonHandler) && jsonHI(payload(result, *JsonHandler)) && fresh(payload(result, *JsonHandler)) && payload(result, *JsonHandler).outMu == h.outMu && payload(result, *JsonHandler).out == h.out && payload(result, *JsonHandler).Options == h.Options
 //@   loop 1
 //@     invariant len(attrs) > 0 && -1 <= rangeindex && rangeindex < 72057594037927936 && h2 != nil && fresh(h2) && h2.Options == h.Options && h2.outMu == h.outMu && h2.out == h.out
-//@     invariant !h.Options.colorful ==> jsonHI(h2)
+//@     invariant jsonHI(h2)
 //@     invariant fresh(arr(h2.preformatted)) || cap(h2.preformatted) == len(h2.preformatted)
 
 //@ func (*JsonHandler).WithGroup
+//@   attr refines Handler.WithGroup
 //@   requires jsonHI(h)
 //@   modifies nothing
 //@   ensures derived: typeIs(result, *JsonHandler) && jsonHI(payload(result, *JsonHandler)) && fresh(payload(result, *JsonHandler)) && payload(result, *JsonHandler).outMu == h.outMu && payload(result, *JsonHandler).out == h.out && payload(result, *JsonHandler).Options == h.Options && payload(result, *JsonHandler).nOpenGroups == h.nOpenGroups + 1
 
 // Handle: one line = one JSON object + '\n', written by exactly one Write under the shared mutex (C01/C02)
 //@ func (*JsonHandler).Handle
+//@   attr refines Handler.Handle
 //@   requires jsonHI(h) && !h.outMu.held && validLevel(r.Level)
 //@   modifies ghostfields(jsonLine), ghostfields(owned), h.outMu.held, wN, wErr, wCalls
 //@   attr blocking-ops call(Lock)#1,call(Write)#1
@@ -245,6 +271,7 @@ package logger
 //@   ensures unlocked: !h.outMu.held
 //@   ghost before call Write assert locked: h.outMu.held
 //@   ghost before call Write assert whole: arg1 == *buf
+//@   ghost before call Write assert private: owned(buf) && (owned(*buf) || fresh(arr(*buf)))
 //@   ghost before call Write assert line: !h.Options.colorful ==> jstK(*buf) == 21 && jstD(*buf) == 0
 //@   loop 1
 //@     invariant a: 0 <= i && i <= h.nOpenGroups && buf != nil
@@ -262,3 +289,287 @@ package logger
 //@   ensures trans.grow: len(*buf) >= len(old(*buf)) && sameOrFresh(old(*buf), *buf)
 //@   invariant member: !h.Options.colorful ==> (addSep ==> afterVal(jstK(*buf))) && (!addSep ==> jstK(*buf) == 2) && jstD(*buf) == 1 + h.nOpenGroups && h.nOpenGroups >= 0
 //@   ensures result
+
+
+// ================= the three handlers as one family (C02, C03) =================
+// handlerOK: h is one of this package's handlers, satisfies its invariant, and this thread does not hold its mutex.
+// muOf / outOf: the mutex and the destination shared by a handler and everything derived from it.
+//@ pure handlerOK(h Handler) bool = (typeIs(h, *JsonHandler) && jsonHI(payload(h, *JsonHandler)) && !payload(h, *JsonHandler).outMu.held) || (typeIs(h, *TextHandler) && textHI(payload(h, *TextHandler)) && !payload(h, *TextHandler).outMu.held) || (typeIs(h, *NanoHandler) && nanoHI(payload(h, *NanoHandler)) && !payload(h, *NanoHandler).outMu.held)
+//@ pure muOf(h Handler) *sync.Mutex = ite(typeIs(h, *JsonHandler), payload(h, *JsonHandler).outMu, ite(typeIs(h, *TextHandler), payload(h, *TextHandler).outMu, payload(h, *NanoHandler).outMu))
+//@ pure outOf(h Handler) io.Writer = ite(typeIs(h, *JsonHandler), payload(h, *JsonHandler).out, ite(typeIs(h, *TextHandler), payload(h, *TextHandler).out, payload(h, *NanoHandler).out))
+
+// ================= C13: text token automaton (fold ghost) =================
+// States: 0 ERR  1 T0 (a key must start: start of line or after ' ')  2 in a bare key  3 in a quoted key  4 escape in
+// a quoted key  9 after a quoted key  5 V0 (after '=': a value must start)  6 in a bare value  7 in a quoted value
+// 8 escape in a quoted value  10 after a quoted value  11 END (after the newline).
+// A bare run is free of ' ', control bytes, '=' and '"'; a quoted run is closed by the first '"' not after a backslash.
+//@ pure tBare(c int) bool = c > 32 && c != '=' && c != '"'
+//@ pure tQ(base int, k int, c int) int = ite(k == base, ite(c == '"', ite(base == 3, 9, 10), ite(c == 92, base + 1, ite(c >= 32, base, 0))), ite(c >= 32, base, 0))
+//@ pure textK(k int, d int, c int) int = ite(k == 1, ite(c == '"', 3, ite(tBare(c), 2, 0)), ite(k == 2, ite(c == '=', 5, ite(tBare(c), 2, 0)), ite(k == 3 || k == 4, tQ(3, k, c), ite(k == 9, ite(c == '=', 5, 0), ite(k == 5, ite(c == '"', 7, ite(tBare(c), 6, 0)), ite(k == 6, ite(c == ' ', 1, ite(c == 10, 11, ite(tBare(c), 6, 0))), ite(k == 7 || k == 8, tQ(7, k, c), ite(k == 10, ite(c == ' ', 1, ite(c == 10, 11, 0)), 0))))))))
+// tst: the line from its first byte. tfragB / tfragQ: a pre-rendered fragment read from where Handle splices it, i.e.
+// after the msg value, which is either bare (6) or quoted (10).
+//@ fold tst 1 0 textK -
+//@ fold tfragB 6 0 textK -
+//@ fold tfragQ 10 0 textK -
+//@ foldalias tfragB tst
+//@ foldalias tfragQ tst
+//@ foldlink tfragB tst
+//@ foldlink tfragQ tst
+//@ pure atKey(k int, d int) bool = k == 1
+//@ pure inKey(k int, d int) bool = k == 2
+//@ pure atVal(k int, d int) bool = k == 5
+//@ pure inVal(k int, d int) bool = k == 6
+//@ runmove tst bareKey atKey inKey tBare
+//@ runmove tst bareVal atVal inVal tBare
+//@ runmove tfragB bareKeyB atKey inKey tBare
+//@ runmove tfragB bareValB atVal inVal tBare
+//@ runmove tfragQ bareKeyQ atKey inKey tBare
+//@ runmove tfragQ bareValQ atVal inVal tBare
+//@ pure keyEnd(k int) bool = k == 2 || k == 9
+//@ pure valEnd(k int) bool = k == 6 || k == 10
+//@ lemma tlabel.2: forall i int {labelList[2][i]} :: 0 <= i && i < len(labelList[2]) ==> tBare(labelList[2][i])
+//@ lemma tlabel.6: forall i int {labelList[6][i]} :: 0 <= i && i < len(labelList[6]) ==> tBare(labelList[6][i])
+//@ lemma tlabel.10: forall i int {labelList[10][i]} :: 0 <= i && i < len(labelList[10]) ==> tBare(labelList[10][i])
+//@ lemma tlabel.14: forall i int {labelList[14][i]} :: 0 <= i && i < len(labelList[14]) ==> tBare(labelList[14][i])
+//@ lemma tlabel.18: forall i int {labelList[18][i]} :: 0 <= i && i < len(labelList[18]) ==> tBare(labelList[18][i])
+//@ lemma safeSet.bare: forall b int {safeSet[b]} :: 0 <= b && b < 128 && safeSet[b] && b != ' ' && b != '=' ==> tBare(b)
+
+//@ func appendTextString
+//@   attr foldpoly yes
+//@   requires buf != nil
+//@   modifies *buf, spare(*buf)
+//@   ensures grow: len(*buf) >= len(old(*buf)) && sameOrFresh(old(*buf), *buf)
+//@   ensures tok: (old(tstK(*buf)) == 1 ==> keyEnd(tstK(*buf))) && (old(tstK(*buf)) == 5 ==> valEnd(tstK(*buf)))
+//@   loop 1
+//@     invariant 0 <= i && i <= len(str) && len(str) > 0 && *buf == old(*buf)
+//@     invariant forall k int {str[k]} :: 0 <= k && k < i ==> tBare(str[k])
+//@     decreases len(str) - i
+
+//@ func appendTextValue
+//@   attr foldpoly yes
+//@   requires buf != nil && v.Kind() != 8 && v.Kind() != 9
+//@   modifies *buf, spare(*buf)
+//@   ensures grow: len(*buf) >= len(old(*buf)) && sameOrFresh(old(*buf), *buf)
+//@   ensures val: !colorful && old(tstK(*buf)) == 5 ==> valEnd(tstK(*buf))
+
+//@ func appendTextSource
+//@   attr foldpoly yes
+//@   requires buf != nil
+//@   modifies *buf, spare(*buf)
+//@   ensures grow: len(*buf) >= len(old(*buf)) && sameOrFresh(old(*buf), *buf)
+//@   ensures val: old(tstK(*buf)) == 5 ==> valEnd(tstK(*buf))
+//@   loop 1
+//@     invariant -1 <= idx && idx < len(f.File) && *buf == old(*buf)
+//@     decreases idx + 1
+
+// one attribute = " key=value" tokens (one per leaf; nothing for an empty group); the key is the dotted group path
+//@ pure bufSep(buf *[]byte, prefix *[]byte) bool = buf != prefix && (arr(*buf) == nil || arr(*buf) != arr(*prefix))
+//@ func appendTextAttr
+//@   attr foldpoly yes
+//@   requires buf != nil && prefix != nil && bufSep(buf, prefix) && arr(*prefix) != nil
+//@   modifies *buf, spare(*buf), *prefix, elems(*prefix), spare(*prefix)
+//@   ensures grow: len(*buf) >= len(old(*buf)) && sameOrFresh(old(*buf), *buf) && sameOrFresh(old(*prefix), *prefix) && len(*prefix) >= len(old(*prefix)) && bufSep(buf, prefix) && arr(*prefix) != nil
+//@   ensures tokens: !colorful && valEnd(old(tstK(*buf))) ==> valEnd(tstK(*buf))
+//@   loop 1
+//@     invariant -1 <= rangeindex && rangeindex < 72057594037927936 && ori == len(old(*prefix)) && len(*prefix) >= ori
+//@     invariant len(*buf) >= len(old(*buf)) && sameOrFresh(old(*buf), *buf) && sameOrFresh(old(*prefix), *prefix) && bufSep(buf, prefix) && arr(*prefix) != nil
+//@     invariant !colorful && valEnd(old(tstK(*buf))) ==> valEnd(tstK(*buf))
+
+// ================= TextHandler =================
+//@ poolinv prefixPool prefix *[]byte :: len(*prefix) == 0 && arr(*prefix) != nil
+//@ pure textHS(h *TextHandler) bool = h != nil && h.Options != nil && h.outMu != nil && h.out != nil && (arr(h.preformatted) == nil || !pooled(h.preformatted))
+//@ pure textHI(h *TextHandler) bool = textHS(h) && (!h.Options.colorful ==> valEnd(tfragBK(h.preformatted)) && valEnd(tfragQK(h.preformatted)))
+
+//@ func NewTextHandler
+//@   requires w != nil && opts != nil
+//@   modifies nothing
+//@   ensures textHI(result) && fresh(result) && fresh(result.outMu) && result.out == w && result.Options == opts && !result.outMu.held
+
+//@ func (*TextHandler).clone
+//@   requires textHI(h)
+//@   modifies nothing
+//@   ensures shared: result != nil && fresh(result) && result.Options == h.Options && result.outMu == h.outMu && result.out == h.out && result.groupPrefix == h.groupPrefix
+//@   ensures clipped: arr(result.preformatted) == arr(h.preformatted) && off(result.preformatted) == off(h.preformatted) && len(result.preformatted) == len(h.preformatted) && cap(result.preformatted) == len(result.preformatted)
+//@   ensures textHI(result)
+
+//@ func (*TextHandler).prefix
+//@   requires h != nil
+//@   modifies ghostfields(owned_prefixPool)
+//@   ensures result != nil && owned(result) && !old(owned(result)) && !isStructField(result) && pooled(result) && arr(*result) != nil && (fresh(arr(*result)) || (owned(*result) && !old(owned(*result)) && pooled(*result)))
+
+//@ func (*TextHandler).freePrefix
+//@   requires prefix != nil && owned(prefix) && arr(*prefix) != nil
+//@   modifies *prefix, ghostfields(owned_prefixPool)
+
+//@ func (*TextHandler).WithAttrs
+//@   attr refines Handler.WithAttrs
+//@   requires textHI(h)
+//@   modifies ghostfields(owned_prefixPool)
+//@   ensures same: len(attrs) == 0 ==> result == any(h)
+//@   ensures derived: len(attrs) > 0 ==> typeIs(result, *TextHandler) && textHI(payload(result, *TextHandler)) && fresh(payload(result, *TextHandler)) && payload(result, *TextHandler).outMu == h.outMu && payload(result, *TextHandler).out == h.out && payload(result, *TextHandler).Options == h.Options && payload(result, *TextHandler).groupPrefix == h.groupPrefix
+//@   loop 1
+//@     invariant len(attrs) > 0 && -1 <= rangeindex && rangeindex < 72057594037927936 && h2 != nil && fresh(h2) && h2.Options == h.Options && h2.outMu == h.outMu && h2.out == h.out && h2.groupPrefix == h.groupPrefix
+//@     invariant textHI(h2)
+//@     invariant fresh(arr(h2.preformatted)) || cap(h2.preformatted) == len(h2.preformatted)
+
+//@ func (*TextHandler).WithGroup
+//@   attr refines Handler.WithGroup
+//@   requires textHI(h)
+//@   modifies nothing
+//@   ensures derived: typeIs(result, *TextHandler) && textHI(payload(result, *TextHandler)) && fresh(payload(result, *TextHandler)) && payload(result, *TextHandler).outMu == h.outMu && payload(result, *TextHandler).out == h.out && payload(result, *TextHandler).Options == h.Options
+
+//@ func (*TextHandler).Handle
+//@   attr refines Handler.Handle
+//@   requires textHI(h) && !h.outMu.held && validLevel(r.Level)
+//@   modifies ghostfields(owned), h.outMu.held, wN, wErr, wCalls
+//@   attr blocking-ops call(Lock)#1,call(Write)#1
+//@   ensures oneWrite: wCalls == old(wCalls) + 1
+//@   ensures unlocked: !h.outMu.held
+//@   ghost before call Write assert locked: h.outMu.held
+//@   ghost before call Write assert whole: arg1 == *buf
+//@   ghost before call Write assert private: owned(buf) && (owned(*buf) || fresh(arr(*buf)))
+//@   ghost before call Write assert line: !h.Options.colorful ==> tstK(*buf) == 11
+
+//@ func (*TextHandler).Handle$1
+//@   requires buf != nil && h != nil && h.Options != nil
+//@   modifies *buf, spare(*buf), ghostfields(owned_prefixPool)
+//@   ensures trans.grow: len(*buf) >= len(old(*buf)) && sameOrFresh(old(*buf), *buf)
+//@   invariant private: ownedIn(buf, bufferPool) && (arr(*buf) == nil || ownedIn(*buf, bufferPool) || !pooled(*buf))
+//@   invariant member: !h.Options.colorful ==> valEnd(tstK(*buf))
+//@   ensures result
+
+// ================= NanoHandler (C02, C03: one Write, private buffer, isolation) =================
+//@ pure nanoHI(h *NanoHandler) bool = h != nil && h.Options != nil && h.outMu != nil && h.out != nil && (arr(h.preformatted) == nil || !pooled(h.preformatted))
+
+//@ func NewNanoHandler
+//@   requires w != nil && opts != nil
+//@   modifies nothing
+//@   ensures nanoHI(result) && fresh(result) && fresh(result.outMu) && result.out == w && result.Options == opts && !result.outMu.held
+
+//@ func (*NanoHandler).clone
+//@   requires nanoHI(h)
+//@   modifies nothing
+//@   ensures shared: result != nil && fresh(result) && result.Options == h.Options && result.outMu == h.outMu && result.out == h.out
+//@   ensures clipped: arr(result.preformatted) == arr(h.preformatted) && off(result.preformatted) == off(h.preformatted) && len(result.preformatted) == len(h.preformatted) && cap(result.preformatted) == len(result.preformatted)
+//@   ensures nanoHI(result)
+
+//@ func (*NanoHandler).WithAttrs
+//@   attr refines Handler.WithAttrs
+//@   requires nanoHI(h)
+//@   modifies nothing
+//@   ensures same: len(attrs) == 0 ==> result == any(h)
+//@   ensures derived: len(attrs) > 0 ==> typeIs(result, *NanoHandler) && nanoHI(payload(result, *NanoHandler)) && fresh(payload(result, *NanoHandler)) && payload(result, *NanoHandler).outMu == h.outMu && payload(result, *NanoHandler).out == h.out && payload(result, *NanoHandler).Options == h.Options
+//@   loop 1
+//@     invariant len(attrs) > 0 && -1 <= rangeindex && rangeindex < 72057594037927936 && h2 != nil && fresh(h2) && h2.Options == h.Options && h2.outMu == h.outMu && h2.out == h.out
+//@     invariant nanoHI(h2)
+//@     invariant fresh(arr(h2.preformatted)) || cap(h2.preformatted) == len(h2.preformatted)
+
+//@ func (*NanoHandler).WithGroup
+//@   attr refines Handler.WithGroup
+//@   requires nanoHI(h)
+//@   modifies nothing
+//@   ensures same: result == any(h)
+
+//@ func (*NanoHandler).Handle
+//@   attr refines Handler.Handle
+//@   requires nanoHI(h) && !h.outMu.held && validLevel(r.Level) && yearOK(r.Time)
+//@   modifies ghostfields(owned), h.outMu.held, wN, wErr, wCalls
+//@   attr blocking-ops call(Lock)#1,call(Write)#1
+//@   ensures oneWrite: wCalls == old(wCalls) + 1
+//@   ensures unlocked: !h.outMu.held
+//@   ghost before call Write assert locked: h.outMu.held
+//@   ghost before call Write assert whole: arg1 == *buf
+//@   ghost before call Write assert private: owned(buf) && (owned(*buf) || fresh(arr(*buf)))
+
+//@ func (*NanoHandler).Handle$1
+//@   requires buf != nil && h != nil && h.Options != nil
+//@   modifies *buf, spare(*buf)
+//@   ensures trans.grow: len(*buf) >= len(old(*buf)) && sameOrFresh(old(*buf), *buf)
+//@   ensures result
+
+//@ func appendNanoValue
+//@   requires buf != nil
+//@   modifies *buf, spare(*buf)
+//@   ensures grow: len(*buf) >= len(old(*buf)) && sameOrFresh(old(*buf), *buf)
+//@   loop 1
+//@     invariant -1 <= rangeindex && rangeindex < 72057594037927936 && len(*buf) >= len(old(*buf)) && sameOrFresh(old(*buf), *buf)
+
+//@ func appendNanoSource
+//@   requires buf != nil
+//@   modifies *buf, spare(*buf)
+//@   ensures grow: len(*buf) >= len(old(*buf)) && sameOrFresh(old(*buf), *buf)
+//@   loop 1
+//@     invariant -1 <= idx && idx < len(f.File) && *buf == old(*buf)
+//@     decreases idx + 1
+
+//@ func appendShortLevel
+//@   requires buf != nil && validLevel(l)
+//@   modifies *buf, spare(*buf)
+//@   ensures grow: len(*buf) >= len(old(*buf)) && sameOrFresh(old(*buf), *buf)
+
+//@ pure yearOK(t time.Time) bool = 0 <= timeYear(t) && timeYear(t) <= 9999
+//@ func appendDateTime
+//@   requires buf != nil && yearOK(t)
+//@   modifies *buf, spare(*buf)
+//@   ensures grow: len(*buf) >= len(old(*buf)) && sameOrFresh(old(*buf), *buf)
+
+//@ func appendIntWidth2
+//@   requires buf != nil && 0 <= i && i <= 99
+//@   modifies *buf, spare(*buf)
+//@   ensures grow: len(*buf) >= len(old(*buf)) && sameOrFresh(old(*buf), *buf)
+//@ func appendIntWidth4
+//@   requires buf != nil && 0 <= i && i <= 9999
+//@   modifies *buf, spare(*buf)
+//@   ensures grow: len(*buf) >= len(old(*buf)) && sameOrFresh(old(*buf), *buf)
+
+// ================= Logger: gate, derivation (C02, C03) =================
+//@ pure loggerOK(l *Logger) bool = l != nil && l.h != nil && handlerOK(l.h)
+
+//@ func New
+//@   requires h != nil
+//@   modifies nothing
+//@   ensures result != nil && fresh(result) && result.h == h
+
+//@ func (*Logger).With
+//@   requires loggerOK(l)
+//@   modifies ghostfields(owned), ghostfields(jsonLine)
+//@   ensures family: loggerOK(result) && muOf(result.h) == muOf(l.h) && outOf(result.h) == outOf(l.h)
+//@   ensures parent: l.h == old(l.h)
+
+//@ func (*Logger).WithGroup
+//@   requires loggerOK(l)
+//@   modifies nothing
+//@   ensures family: loggerOK(result) && muOf(result.h) == muOf(l.h) && outOf(result.h) == outOf(l.h)
+//@   ensures parent: l.h == old(l.h)
+
+//@ func argsToAttrs
+//@   modifies nothing
+//@   loop 1
+//@     invariant 0 <= i && i <= len(args) && (arr(attrs) == nil || fresh(arr(attrs)))
+//@     decreases len(args) - i
+
+// the level gate: a record below the threshold reaches no handler, so causes no Write; an enabled one is handed to
+// Handle exactly once, which (Handler.Handle contract, refined by the three handlers) is exactly one Write
+//@ func (*Logger).log
+//@   requires loggerOK(l) && validLevel(level)
+//@   modifies region(originMem), ghostfields(held), ghostfields(owned), ghostfields(jsonLine), wN, wErr, wCalls
+//@   ensures gate: wCalls == old(wCalls) + ite(l.h.Enabled(level), 1, 0)
+//@   ensures again: loggerOK(l)
+
+//@ func (*Logger).logf
+//@   requires loggerOK(l) && validLevel(level)
+//@   modifies region(originMem), ghostfields(held), ghostfields(owned), ghostfields(jsonLine), wN, wErr, wCalls
+//@   ensures gate: wCalls == old(wCalls) + ite(l.h.Enabled(level), 1, 0)
+//@   ensures again: loggerOK(l)
+
+//@ func (*Logger).logAttrs
+//@   requires loggerOK(l) && validLevel(level)
+//@   modifies region(originMem), ghostfields(held), ghostfields(owned), ghostfields(jsonLine), wN, wErr, wCalls
+//@   ensures gate: wCalls == old(wCalls) + ite(l.h.Enabled(level), 1, 0)
+//@   ensures again: loggerOK(l)
+
+// the threshold itself
+//@ func (*Options).Enabled
+//@   requires opts != nil
+//@   modifies nothing
+//@   ensures result == (l >= opts.level)
